@@ -316,3 +316,17 @@ pub async fn send_udp_relay_response(
     let content = v5::udp_relay_response(target, data);
     socket.send_to(&content, target).await
 }
+
+/// Verification hook (compiled only with `--cfg penguin_rs_verif`): run the session handler of one
+/// accepted SOCKS connection on a stream supplied by the caller.
+#[cfg(penguin_rs_verif)]
+pub async fn verif_on_socks_accept<RW>(
+    bufreader: Box<BufReader<RW>>,
+    local_addr: &str,
+    hr: &'static HandlerResources,
+) -> Result<(), Error>
+where
+    RW: AsyncRead + AsyncWrite + Unpin,
+{
+    on_socks_accept(bufreader, local_addr, hr).await
+}
